@@ -532,4 +532,61 @@ example : declaredSuccess [404, 201, 200, 500] = some 200 := by decide
 example : declaredSuccess [404, 500] = none := by decide
 
 
+/-! ### a client reading the challenge back recovers exactly the realm -/
+
+/-- the body of a quoted string, read back (`esc`: the previous byte was a backslash): `\\c` stands
+for `c`, a bare `"` or a trailing backslash is malformed -/
+def unqGo : Bool → Bytes → Option Bytes
+  | false, [] => some []
+  | true, [] => none
+  | true, c :: r => (unqGo false r).map (c :: ·)
+  | false, c :: r =>
+    if c == 92 then unqGo true r else if c == 34 then none else (unqGo false r).map (c :: ·)
+
+def unqBody (l : Bytes) : Option Bytes := unqGo false l
+
+/-- `"…"` read back -/
+def unquote : Bytes → Option Bytes
+  | [] => none
+  | c :: t => if c == 34 && t.getLast? == some 34 then unqBody t.dropLast else none
+
+/-- the realm a client reads from a `WWW-Authenticate: Basic realm="…"` value -/
+def realmOfChallenge (h : Bytes) : Option Bytes :=
+  if h.take basicRealmEq.length == basicRealmEq then unquote (h.drop basicRealmEq.length) else none
+
+theorem unqBody_escapes (s : Bytes) :
+    unqBody (s.flatMap (fun b => if b == 34 || b == 92 then [92, b] else [b])) = some s := by
+  unfold unqBody
+  induction s with
+  | nil => rfl
+  | cons x xs ih =>
+    simp only [List.flatMap_cons]
+    by_cases hx : (x == 34 || x == 92) = true
+    · simp only [hx, if_true, List.cons_append, List.nil_append]
+      simp only [unqGo, beq_self_eq_true, ↓reduceIte, ih, Option.map_some]
+    · simp only [hx, Bool.false_eq_true, if_false, List.cons_append, List.nil_append]
+      have h1 : (x == 92) = false := by
+        cases h : (x == 92) <;> simp_all
+      have h2 : (x == 34) = false := by
+        cases h : (x == 34) <;> simp_all
+      simp only [unqGo, h1, h2, Bool.false_eq_true, ↓reduceIte, ih, Option.map_some]
+
+theorem unquote_goQuote (s : Bytes) : unquote (goQuote s) = some s := by
+  unfold goQuote
+  simp only [List.cons_append, List.nil_append, unquote, List.getLast?_concat, List.dropLast_concat,
+    beq_self_eq_true, Bool.and_self, if_true]
+  exact unqBody_escapes s
+
+/-- **Round trip of the challenge**: whatever realm is configured (any bytes, quotes and backslashes
+included), the header value the server sends reads back as exactly that realm. -/
+theorem realmOfChallenge_challenge (realm : Bytes) : realmOfChallenge (challenge realm) = some realm := by
+  unfold realmOfChallenge challenge
+  rw [List.take_left', List.drop_left']
+  · simp only [beq_self_eq_true, if_true]; exact unquote_goQuote realm
+  · rfl
+  · rfl
+
+example : realmOfChallenge (challenge [97, 34, 92, 98]) = some [97, 34, 92, 98] := by decide
+
+
 end RtVerif.C08
